@@ -241,15 +241,18 @@ struct Expect {
     /// Text: plain string; Start/Empty: attribute list; CData: raw content
     plain: Option<String>,
     attrs: Option<Vec<(String, String)>>,
+    /// Decl: (version, encoding, standalone) as given to BytesDecl::new
+    decl: Option<(String, Option<String>, Option<String>)>,
     /// index of the build it came from
     build: usize,
 }
 
 fn expected(builds: &[Build]) -> Vec<Expect> {
     let mut out = vec![];
+    let mut decls: Vec<(usize, (String, Option<String>, Option<String>))> = vec![];
     for (bi, b) in builds.iter().enumerate() {
         let mut push = |ev: Event<'static>, plain: Option<String>, attrs: Option<Vec<(String, String)>>| {
-            out.push(Expect { ev, plain, attrs, build: bi })
+            out.push(Expect { ev, plain, attrs, decl: None, build: bi })
         };
         match b {
             Build::Elem { empty, name, edits } => {
@@ -269,7 +272,8 @@ fn expected(builds: &[Build]) -> Vec<Expect> {
             Build::Comment(s) => push(Event::Comment(BytesText::from_escaped(s.clone())), None, None),
             Build::PI(s) => push(Event::PI(BytesPI::new(s.clone())), None, None),
             Build::Decl { version, encoding, standalone } => {
-                push(Event::Decl(BytesDecl::new(version, encoding.as_deref(), standalone.as_deref())), None, None)
+                push(Event::Decl(BytesDecl::new(version, encoding.as_deref(), standalone.as_deref())), None, None);
+                decls.push((bi, (version.clone(), encoding.clone(), standalone.clone())));
             }
             Build::DocType(s) => push(Event::DocType(BytesText::from_escaped(s.clone())), None, None),
             Build::Builder { name, attrs, content } => {
@@ -293,6 +297,11 @@ fn expected(builds: &[Build]) -> Vec<Expect> {
                     }
                 }
             }
+        }
+    }
+    for (bi, d) in decls {
+        if let Some(x) = out.iter_mut().find(|x| x.build == bi) {
+            x.decl = Some(d);
         }
     }
     out
@@ -530,6 +539,9 @@ pub struct Pipe;
 impl Scenario for Pipe {
     fn name(&self) -> &'static str {
         "pipe"
+    }
+    fn panic_prop(&self) -> &'static str {
+        "C09"
     }
     fn gen(&self, rng: &mut Rng, base_seed: u64, run: u64, _tier: Tier) -> Plan {
         let mut p = Plan::new("pipe", base_seed, run);
@@ -839,6 +851,26 @@ fn check_readback(exp: &[Expect], got: &[Result<Event<'static>, String>], bytes:
             if Some(&&have) != want_attrs.get(k) {
                 out.push(Violation::new("C09", "payload-differs", format!("attributes pushed {:?}, read back {:?}", want_attrs.get(k), have)));
                 return;
+            }
+            k += 1;
+        }
+    }
+    // declarations: the three pseudo-attributes read back as given
+    let want_decls: Vec<&(String, Option<String>, Option<String>)> = exp.iter().filter_map(|x| x.decl.as_ref()).collect();
+    let mut k = 0;
+    for e in &got_events {
+        if let Event::Decl(d) = e {
+            let have = (
+                d.version().ok().map(|v| String::from_utf8_lossy(&v).into_owned()),
+                d.encoding().map(|r| r.ok().map(|v| String::from_utf8_lossy(&v).into_owned())),
+                d.standalone().map(|r| r.ok().map(|v| String::from_utf8_lossy(&v).into_owned())),
+            );
+            if let Some(w) = want_decls.get(k) {
+                let want = (Some(w.0.clone()), w.1.clone().map(Some), w.2.clone().map(Some));
+                if have != want {
+                    out.push(Violation::new("C09", "payload-differs", format!("declaration built from {:?} reads back as version={:?} encoding={:?} standalone={:?}", w, have.0, have.1, have.2)));
+                    return;
+                }
             }
             k += 1;
         }
